@@ -266,12 +266,42 @@ def textLabel (s : Bytes) : Option Bytes :=
   let n := s.length % 256
   if n = 0 then none else some (s.take n)
 
-/-- `putdomtext`: `.` stays; otherwise quote, split on dots, drop empty labels, join -/
+/-- `bytes.HasPrefix(b, "*.")` -/
+def startsStar (b : Bytes) : Bool :=
+  match b with
+  | 0x2a :: 0x2e :: _ => true
+  | _ => false
+
+/-- `putdomtext`: `.` stays; otherwise quote, split on dots, drop empty labels, join; one leading
+dot is kept when the joined text begins with `*.` and the quoted name did not (the wildcard marker
+would only appear through the removal of the empty labels in front of it) -/
 def domText (isPrint : Nat → Bool) (a : Bytes) : Bytes :=
   if a = [0x2e] then [0x2e]
-  else joinDots ((splitDots (Quote.bquote isPrint a)).filterMap textLabel)
+  else
+    let q := Quote.bquote isPrint a
+    let t := joinDots ((splitDots q).filterMap textLabel)
+    if startsStar t ∧ ¬ startsStar q then 0x2e :: t else t
 
 def wildText (wild : Bool) : Bytes := if wild then [0x2a, 0x2e] else []
+
+/-- `putservertext` (the ns / mx / srv field): `putdomtext`, and a trailing dot when the text has
+no dot (a name without a dot would be expanded again by `UnmarshalText`) -/
+def serverText (isPrint : Nat → Bool) (a : Bytes) : Bytes :=
+  let t := domText isPrint a
+  if t.contains 0x2e then t else t ++ [0x2e]
+
+/-- `putmapdomtext` (`M` / `8` lines): the `*.` of a wildcard map is written as it is, the rest of
+the name with `putdomtext` -/
+def mapDomText (isPrint : Nat → Bool) (a : Bytes) : Bytes :=
+  match a with
+  | 0x2a :: 0x2e :: rest => [0x2a, 0x2e] ++ domText isPrint rest
+  | _ => domText isPrint a
+
+/-- the target of a `B` / `H` line: `UnmarshalText` (`getdom`) drops one leading `*.`, so one is
+written in front of a target whose text still begins with `*.` -/
+def tgtText (isPrint : Nat → Bool) (tgt : Bytes) : Bytes :=
+  let t := domText isPrint tgt
+  wildText (startsStar t) ++ t
 
 /-- `net.IP.MarshalText`: empty for a nil address -/
 def ipText (ip : Option IP) : Bytes :=
@@ -291,25 +321,30 @@ def joinSep : List Bytes → Bytes
   | [a] => a
   | a :: rest => a ++ sep ++ joinSep rest
 
-/-- the fields every `MarshalText` writes, in order -/
-def marshalFields (isPrint : Nat → Bool) : Record → Except Err (UInt8 × List Bytes)
+/-- the serial field of a `Z` line: left empty only when the serial is 0 and the codec's default
+serial (`r.c.Serial`, which an empty field is read back as) is 0 as well -/
+def serialText (cfg : Cfg) (ser : Nat) : Bytes := if ser ≠ 0 ∨ cfg.serial ≠ 0 then decText ser else []
+
+/-- the fields every `MarshalText` writes, in order (`cfg`: the codec the record was decoded with,
+`r.c`; only its default serial is looked at, by the `Z` line) -/
+def marshalFields (isPrint : Nat → Bool) (cfg : Cfg) : Record → Except Err (UInt8 × List Bytes)
   | .soa dom ns adm ser ref ret exp min ttl lo =>
     .ok (0x5a, [domText isPrint dom, domText isPrint ns, domText isPrint adm,
-      if ser ≠ 0 then decText ser else [], decText ref, decText ret, decText exp, decText min,
+      serialText cfg ser, decText ref, decText ret, decText exp, decText min,
       decText ttl, [], locText lo])
   | .net lo ip ones lmap => .ok (0x25, [locText lo, ipnetText ip ones, lmapText lmap])
   | .dot dom ip ns ttl lo =>
-    .ok (0x2e, [domText isPrint dom, ipText ip, domText isPrint ns, decText ttl, [], locText lo])
+    .ok (0x2e, [domText isPrint dom, ipText ip, serverText isPrint ns, decText ttl, [], locText lo])
   | .ns dom ip ns ttl lo =>
-    .ok (0x26, [domText isPrint dom, ipText ip, domText isPrint ns, decText ttl, [], locText lo])
+    .ok (0x26, [domText isPrint dom, ipText ip, serverText isPrint ns, decText ttl, [], locText lo])
   | .addr dom wild ip ttl lo weight =>
     .ok (0x2b, [wildText wild ++ domText isPrint dom, ipText ip, decText ttl, [], locText lo, decText weight])
   | .paddr dom wild ip ttl lo =>
     .ok (0x3d, [wildText wild ++ domText isPrint dom, ipText ip, decText ttl, [], locText lo])
   | .mx dom ip mx dist ttl lo =>
-    .ok (0x40, [domText isPrint dom, ipText ip, domText isPrint mx, decText dist, decText ttl, [], locText lo])
+    .ok (0x40, [domText isPrint dom, ipText ip, serverText isPrint mx, decText dist, decText ttl, [], locText lo])
   | .srv dom ip srv port pri weight ttl lo =>
-    .ok (0x53, [domText isPrint dom, ipText ip, domText isPrint srv, decText port, decText pri,
+    .ok (0x53, [domText isPrint dom, ipText ip, serverText isPrint srv, decText port, decText pri,
       decText weight, decText ttl, [], locText lo])
   | .cname dom wild cname ttl lo =>
     .ok (0x43, [wildText wild ++ domText isPrint dom, domText isPrint cname, decText ttl, [], locText lo])
@@ -319,35 +354,28 @@ def marshalFields (isPrint : Nat → Bool) : Record → Except Err (UInt8 × Lis
     .ok (0x27, [wildText wild ++ domText isPrint dom, Quote.bquote isPrint txt, decText ttl, [], locText lo])
   | .aux dom rtype rdata ttl lo =>
     .ok (0x3a, [domText isPrint dom, decText rtype, Quote.bquote isPrint rdata, decText ttl, [], locText lo])
-  | .ipmap dom lmap => .ok (0x4d, [domText isPrint dom, lmapText lmap])
-  | .csmap dom lmap => .ok (0x38, [domText isPrint dom, lmapText lmap])
+  | .ipmap dom lmap => .ok (0x4d, [mapDomText isPrint dom, lmapText lmap])
+  | .csmap dom lmap => .ok (0x38, [mapDomText isPrint dom, lmapText lmap])
   | .rangepoint lmap ip maskLen loc =>
     match loc with
     | none => .ok (0x21, [lmapText lmap, Svcb.ipString ip])
     | some l =>
       let m := if isV4 ip then (maskLen + 160) % 256 else maskLen     -- uint8 `mlen -= 96`
       .ok (0x21, [lmapText lmap, Svcb.ipString ip, decText m, locText (some l)])
-  | .svcb https dom _wild tgt ttl lo prio params =>
-    -- no `*.` is written for a wildcard owner
+  | .svcb https dom wild tgt ttl lo prio params =>
     match Svcb.toText params with
     | .error _ => .error .badSvcb          -- an unmarshaller indexes out of range: panic
     | .ok ptxt =>
       .ok (if https then 0x48 else 0x42,
-        [domText isPrint dom, domText isPrint tgt, decText ttl, locText lo, decText prio, ptxt])
+        [wildText wild ++ domText isPrint dom, tgtText isPrint tgt, decText ttl, locText lo, decText prio, ptxt])
 
 /-- `MarshalText` -/
-def marshalText (isPrint : Nat → Bool) (r : Record) : Except Err Bytes :=
-  match marshalFields isPrint r with
+def marshalText (isPrint : Nat → Bool) (cfg : Cfg) (r : Record) : Except Err Bytes :=
+  match marshalFields isPrint cfg r with
   | .error e => .error e
   | .ok (t, fs) => .ok (t :: joinSep fs)
 
 /-! ### `Codec.Preprocess` (RocksDB codec settings) -/
-
-/-- `isIgnored`: empty line or comment (no trimming, unlike the parser's filter) -/
-def isIgnored (l : Bytes) : Bool :=
-  match l with
-  | [] => true
-  | c :: _ => c = 0x23
 
 /-- `SubnetRanger.MarshalMap` at the level of points: per map id, the rearranged points -/
 def rangePoints (subs : List Subnet) : Option (List (Bytes × Rearr.Point)) :=
@@ -362,14 +390,17 @@ def rangePoints (subs : List Subnet) : Option (List (Bytes × Rearr.Point)) :=
 def pointRecord (mp : Bytes × Rearr.Point) : Record :=
   .rangepoint mp.1 (Rearr.natToIP mp.2.ip) (mp.2.maskLen % 256) mp.2.loc
 
+/-- the `!` line the scanner writes for a point -/
+def pointLine (isPrint : Nat → Bool) (mp : Bytes × Rearr.Point) : Option Bytes :=
+  match marshalText isPrint {} (pointRecord mp) with
+  | .ok t => some t
+  | .error _ => none
+
 /-- `SubnetRanger.OpenScanner`: the `!` lines of the accumulator -/
 def rangePointLines (isPrint : Nat → Bool) (subs : List Subnet) : Option (List Bytes) :=
   match rangePoints subs with
   | none => none
-  | some mps => mps.mapM fun mp =>
-    match marshalText isPrint (pointRecord mp) with
-    | .ok t => some t
-    | .error _ => none
+  | some mps => mps.mapM (pointLine isPrint)
 
 inductive PrepErr where
   | decode (e : Err)
@@ -377,28 +408,31 @@ inductive PrepErr where
   | mode             -- not the RocksDB accumulator settings (`ErrBadMode` / nil scanner)
 deriving Repr, DecidableEq
 
-/-- the scan loop of `PreprocReader`: comments and empty lines are dropped, `%` lines are decoded
-into the accumulator and dropped (`NoRnetOutput`), `Z` lines are replaced by their `MarshalText`,
-every other line is copied verbatim (not decoded); finally the accumulator's `!` lines -/
+/-- the scan loop of `PreprocReader`: the parser's line filter (`filterLine`: leading blanks trimmed,
+lines shorter than two bytes and comments dropped), `%` lines are decoded into the accumulator and
+dropped (`NoRnetOutput`), `Z` lines are replaced by their `MarshalText`, every other (trimmed) line
+is copied (not decoded); finally the accumulator's `!` lines -/
 def preprocessLoop (isPrint : Nat → Bool) (cfg : Cfg) :
     List Bytes → List Bytes → List Subnet → Except PrepErr (List Bytes × List Subnet)
   | [], out, subs => .ok (out, subs)
-  | l :: rest, out, subs =>
-    if isIgnored l then preprocessLoop isPrint cfg rest out subs
-    else if l.head? = some 0x25 then
-      match parseRecord cfg l with
-      | .error e => .error (.decode e)
-      | .ok r =>
-        if cfg.noRnetOutput then preprocessLoop isPrint cfg rest out (subs ++ (recordSubnet r).toList)
-        else preprocessLoop isPrint cfg rest (out ++ [l]) (subs ++ (recordSubnet r).toList)
-    else if l.head? = some 0x5a then
-      match parseRecord cfg l with
-      | .error e => .error (.decode e)
-      | .ok r =>
-        match marshalText isPrint r with
+  | raw :: rest, out, subs =>
+    match filterLine raw with
+    | none => preprocessLoop isPrint cfg rest out subs
+    | some l =>
+      if l.head? = some 0x25 then
+        match parseRecord cfg l with
         | .error e => .error (.decode e)
-        | .ok t => preprocessLoop isPrint cfg rest (out ++ [t]) subs
-    else preprocessLoop isPrint cfg rest (out ++ [l]) subs
+        | .ok r =>
+          if cfg.noRnetOutput then preprocessLoop isPrint cfg rest out (subs ++ (recordSubnet r).toList)
+          else preprocessLoop isPrint cfg rest (out ++ [l]) (subs ++ (recordSubnet r).toList)
+      else if l.head? = some 0x5a then
+        match parseRecord cfg l with
+        | .error e => .error (.decode e)
+        | .ok r =>
+          match marshalText isPrint cfg r with
+          | .error e => .error (.decode e)
+          | .ok t => preprocessLoop isPrint cfg rest (out ++ [t]) subs
+      else preprocessLoop isPrint cfg rest (out ++ [l]) subs
 
 def preprocess (isPrint : Nat → Bool) (cfg : Cfg) (lines : List Bytes) : Except PrepErr (List Bytes) :=
   if ¬ cfg.ranger then .error .mode
